@@ -30,6 +30,8 @@ class Carrier (α : Type) extends Add α, Sub α, Mul α, Div α where
   next : α → α
   /-- `x < y` (false when a NaN is involved) -/
   ltb : α → α → Bool
+  /-- `util.Float64Equals(x, y)`: `|x - y| < 1e-8` -/
+  feq : α → α → Bool
 
 open Carrier
 
@@ -45,6 +47,7 @@ instance : Carrier Float where
   trunc x := x.toInt64.toInt
   next := floatNext
   ltb x y := decide (x < y)
+  feq x y := decide ((x - y).abs < 0.00000001)
 
 instance : Carrier Rat where
   ofNat n := (n : Rat)
@@ -52,6 +55,7 @@ instance : Carrier Rat where
   trunc q := Int.tdiv q.num q.den
   next q := q
   ltb x y := decide (x < y)
+  feq x y := decide ((if x < y then y - x else x - y) < (1 : Rat) / 100000000)
 
 /-! ## warm-up: constructor -/
 
@@ -142,6 +146,23 @@ inductive Calc (α : Type) where
   | warmup (c : Cfg α)
   | adaptive (m : MemCfg)
 
+/-- the fields of a loaded `flow.Rule` that `Rule.isEqualsTo` can tell apart in this setting (one resource,
+    `Reject`, no relation): strategy, threshold / memory parameters, `StatIntervalInMs` -/
+inductive RuleP (α : Type) where
+  | wu (T : α) (period cf0 iv : Nat)
+  | ma (m : MemCfg) (iv : Nat)
+
+/-- `NewWarmUpTrafficShapingCalculator` writes the defaulted cold factor into the rule object it is bound to -/
+def RuleP.norm {α} : RuleP α → RuleP α
+  | .wu T p cf iv => .wu T p (effCf cf) iv
+  | r => r
+
+/-- `bound.isEqualsTo(new)` (implied by the `reflect.DeepEqual` short cut of `LoadRules`) -/
+def RuleP.same {α} [Carrier α] : RuleP α → RuleP α → Bool
+  | .wu T p cf iv, .wu T' p' cf' iv' => Carrier.feq T T' && p == p' && cf == cf' && iv == iv'
+  | .ma m iv, .ma m' iv' => decide (m = m') && iv == iv'
+  | _, _ => false
+
 /-- a resource with at most one flow rule: the node's leap array (20 x 500 ms by default), the rule's
     read view `(sampleCount, interval)`, the warm-up token state and the injected memory reading -/
 structure Sys (α : Type) where
@@ -149,6 +170,8 @@ structure Sys (α : Type) where
   rule : Option (Calc α × Nat × Nat) := none
   tok : Tok := {}
   mem : Int := -1
+  /-- the rule object the controller in force is bound to (`TrafficShapingController.rule`) -/
+  bound : Option (RuleP α) := none
 
 def nodeN : Nat := 20    -- GlobalStatisticSampleCountTotal
 def nodeL : Nat := 500   -- GlobalStatisticIntervalMsTotal / GlobalStatisticSampleCountTotal
@@ -207,6 +230,19 @@ def loadWarmUp {α} [Carrier α] (s : Sys α) (now : Nat) (T : α) (period cf0 s
 
 def loadAdaptive {α} (s : Sys α) (now : Nat) (m : MemCfg) (sc Iv : Nat) : Sys α :=
   { (s.touch now) with rule := some (.adaptive m, sc, Iv), tok := {} }
+
+/-- `flow.LoadRules([rule])` on a resource that may already have a rule (`buildResourceTrafficShapingController`):
+    an invalid rule leaves the resource without controller; a rule equal to the bound one keeps the old
+    controller with its calculator state; anything else gets a freshly constructed calculator
+    (`storedTokens = 0`, `lastFilledTime = 0`) over the view `(sc, Iv)` of the new `StatIntervalInMs` -/
+def loadRule {α} [Carrier α] (s : Sys α) (now : Nat) (r : RuleP α) (valid : Bool) (sc Iv : Nat) : Sys α :=
+  let fresh : Sys α := match r with
+    | .wu T p cf _ => { loadWarmUp s now T p cf sc Iv with bound := some r.norm }
+    | .ma m _ => { loadAdaptive s now m sc Iv with bound := some r }
+  if !valid then { s with rule := none, bound := none, tok := {} }
+  else match s.bound with
+    | some b => if b.same r then s else fresh
+    | none => fresh
 
 /-! ## the regions of the recorded findings, as decidable predicates on the calculator's fields -/
 namespace Known
